@@ -264,6 +264,9 @@ def gen_program(rng, vs, percpu):
     return stmts
 
 
+UNALIGNED = [0]          # in-place updates of elements that do not sit on a multiple of their size (an observation)
+
+
 def emitter(vs, stmts):
     """the program() method: the statements written with the library's own constructs"""
     from contextlib import ExitStack
@@ -296,7 +299,7 @@ def emitter(vs, stmts):
                         pos = objs[dinst].__dict__.get(dname)
                         esize = struct.calcsize(vletters(df)[di].replace("x", "q"))
                         if isinstance(pos, int) and (pos + struct_layout(df)[0][di]) % esize:
-                            program.unaligned_elements += 1
+                            UNALIGNED[0] += 1
                             mm[addr] = mm[addr] + (k if st["op"] == "iadd" else -k)
                             continue
                         tmp = mm[addr]
@@ -329,7 +332,6 @@ def emitter(vs, stmts):
                 else:
                     setattr(objs[dinst], dname, val)
         self.exit(XDPExitCode.PASS)
-    program.unaligned_elements = 0
     return program
 
 
@@ -522,6 +524,7 @@ def run(ctx):
     chosen += [(i, decls[i]) for i in range(n_enum, len(decls))][:nh - len(chosen)]
     use_kernel = kernel.available()
     ctx.extra["kernel_available"] = use_kernel
+    UNALIGNED[0] = 0
     plans = []
     for j, (i, decl) in enumerate(chosen):
         kind = "sim" if j % 9 == 8 else "xdp"
@@ -701,6 +704,7 @@ def classify(ctx):
         tally[name] += 1
         shown.setdefault((name, case["part"]), []).append(reason[:420])
     ctx.extra["failure_tally"] = tally
+    ctx.extra["observation_unaligned_elements_updated_without_atomic_add"] = UNALIGNED[0]
     if ctx.failures:
         print("C08 failure tally:", json.dumps(tally))
         for (name, part), rs in sorted(shown.items()):
